@@ -130,9 +130,9 @@ func c20Run(t *testing.T, c c20Case, r *vp.Rec) error {
 	peerMaxSD := map[streamID]int64{} // largest MAX_STREAM_DATA (or initial) per stream we may send on
 	highest := map[streamID]int64{}   // highest offset the conn sent per stream
 	var sumHighest int64
-	advMaxData := c.ConnBuf              // what the conn advertised to us (non-decreasing)
-	advMaxSD := map[streamID]int64{}     // per stream the peer sends on
-	peerSent := map[streamID]int64{}     // highest offset the peer has sent
+	advMaxData := c.ConnBuf          // what the conn advertised to us (non-decreasing)
+	advMaxSD := map[streamID]int64{} // per stream the peer sends on
+	peerSent := map[streamID]int64{} // highest offset the peer has sent
 	var peerSentSum int64
 	closed := transportError(0)
 	gotClose := false
